@@ -1,6 +1,384 @@
 import DswModel.Model.Spiderweb
 import DswModel.Lemmas.Defs
-/-! Helper lemmas for the trimming loop of `connect_coding_graph` (C03, thresholds ≥ 2 and phase 1). -/
-namespace Dsw
+/-! Helper lemmas for the trimming loop of `connect_coding_graph` (C03, thresholds ≥ 2 and phase 1).
 
-end Dsw
+`Mask.Le`, `succCount` and `TrimClosed` are definitionally the `Mask.Sub`, `succIn` and `Closed` of
+`Props/C03.lean` (which imports this file).
+
+Everything lives in the namespace `Dsw.Trim`, so that the general-purpose facts proved here
+(`inducedAccessor_ent`, `Acc.row_natCast`, `obtainLatters_length`, …) do not clash with the
+same-named lemmas of `Lemmas/DeBruijn.lean` / `Lemmas/Discover.lean`, which this file must not
+import. -/
+namespace Dsw.Trim
+
+/-! ### counting `true`s in Boolean lists -/
+
+theorem filter_length_mono {α} (p q : α → Bool) (hpq : ∀ x, p x = true → q x = true) :
+    ∀ l : List α, (l.filter p).length ≤ (l.filter q).length := by
+  intro l
+  induction l with
+  | nil => simp
+  | cons x xs ih =>
+    simp only [List.filter_cons]
+    cases hp : p x
+    · cases hq : q x <;> simp <;> omega
+    · simp [hpq x hp]; omega
+
+theorem boolCount_le_of_le : ∀ {a b : List Bool}, a.length = b.length →
+    (∀ i, a.getD i false = true → b.getD i false = true) →
+    (a.filter id).length ≤ (b.filter id).length := by
+  intro a
+  induction a with
+  | nil => intro b _ _; simp
+  | cons x xs ih =>
+    intro b hl h
+    cases b with
+    | nil => simp at hl
+    | cons y ys =>
+      have hi := ih (b := ys) (by simpa using hl) (fun i hi => by simpa using h (i+1) (by simpa using hi))
+      have h0 := h 0
+      cases x <;> cases y
+      · simpa using hi
+      · simp; omega
+      · simp at h0
+      · simpa using hi
+
+theorem boolList_eq_of_le_of_count : ∀ {a b : List Bool}, a.length = b.length →
+    (∀ i, a.getD i false = true → b.getD i false = true) →
+    (b.filter id).length = (a.filter id).length → a = b := by
+  intro a
+  induction a with
+  | nil => intro b hl _ _; cases b <;> simp_all
+  | cons x xs ih =>
+    intro b hl h hc
+    cases b with
+    | nil => simp at hl
+    | cons y ys =>
+      have hl' : xs.length = ys.length := by simpa using hl
+      have h' : ∀ i, xs.getD i false = true → ys.getD i false = true :=
+        fun i hi => by simpa using h (i+1) (by simpa using hi)
+      have h0 := h 0
+      have hcl := boolCount_le_of_le hl' h'
+      cases x <;> cases y
+      · simp at hc ⊢; exact ih hl' h' hc
+      · simp at hc; omega
+      · simp at h0
+      · simp at hc ⊢; exact ih hl' h' hc
+
+/-! ### masks -/
+
+/-- pointwise inclusion of masks (definitionally `Mask.Sub` of the property file). -/
+def Mask.Le (a b : Mask) : Prop := ∀ v, a.getD v false = true → b.getD v false = true
+
+theorem Mask.Le.refl (a : Mask) : Mask.Le a a := fun _ h => h
+theorem Mask.Le.trans {a b c : Mask} (h1 : Mask.Le a b) (h2 : Mask.Le b c) : Mask.Le a c :=
+  fun v h => h2 v (h1 v h)
+
+theorem Mask.getD_toList (m : Mask) (i : Nat) : m.toList.getD i false = m.getD i false := by
+  simp [List.getD_eq_getElem?_getD, Array.getD_eq_getD_getElem?]
+
+theorem Mask.lt_size_of_getD {m : Mask} {v : Nat} (h : m.getD v false = true) : v < m.size := by
+  by_cases hv : v < m.size
+  · exact hv
+  · simp [Array.getD_eq_getD_getElem?, Array.getElem?_eq_none (Nat.le_of_not_lt hv)] at h
+
+theorem Mask.count_le_size (m : Mask) : m.count ≤ m.size := by
+  unfold Mask.count
+  simpa using List.length_filter_le id m.toList
+
+theorem Mask.count_le_of_le {a b : Mask} (hs : a.size = b.size) (h : Mask.Le a b) :
+    a.count ≤ b.count := by
+  unfold Mask.count
+  exact boolCount_le_of_le (by simpa using hs) (fun i hi => by
+    rw [Mask.getD_toList] at hi ⊢; exact h i hi)
+
+theorem Mask.eq_of_le_of_count {a b : Mask} (hs : a.size = b.size) (h : Mask.Le a b)
+    (hc : b.count = a.count) : a = b := by
+  have : a.toList = b.toList := boolList_eq_of_le_of_count (by simpa using hs) (fun i hi => by
+    rw [Mask.getD_toList] at hi ⊢; exact h i hi) hc
+  cases a; cases b; simp_all
+
+theorem Mask.exists_of_count_pos {m : Mask} (h : 1 ≤ m.count) :
+    ∃ v, v < m.size ∧ m.getD v false = true := by
+  unfold Mask.count at h
+  have : (m.toList.filter id) ≠ [] := by
+    intro h0; rw [h0] at h; simp at h
+  obtain ⟨b, hb⟩ := List.exists_mem_of_ne_nil _ this
+  rw [List.mem_filter] at hb
+  obtain ⟨hb1, hb2⟩ := hb
+  obtain ⟨i, hi, rfl⟩ := List.getElem_of_mem hb1
+  refine ⟨i, by simpa using hi, ?_⟩
+  simp at hi
+  simpa [Array.getD_eq_getD_getElem?, hi] using hb2
+
+theorem Mask.count_zero_of_forall {m : Mask} (h : ∀ v, m.getD v false ≠ true) : m.count = 0 := by
+  by_cases hc : 1 ≤ m.count
+  · obtain ⟨v, _, hv⟩ := Mask.exists_of_count_pos hc
+    exact absurd hv (h v)
+  · omega
+
+theorem Mask.mem_indices {m : Mask} {v : Nat} : v ∈ m.indices ↔ m.getD v false = true := by
+  unfold Mask.indices
+  simp only [List.mem_filter, List.mem_range]
+  exact ⟨fun h => h.2, fun h => ⟨Mask.lt_size_of_getD h, h⟩⟩
+
+theorem Mask.indices_ne_nil_of_count_pos {m : Mask} (h : 1 ≤ m.count) : m.indices ≠ [] := by
+  obtain ⟨v, _, hv⟩ := Mask.exists_of_count_pos h
+  exact List.ne_nil_of_mem (Mask.mem_indices.2 hv)
+
+theorem Mask.count_pos_of_getD {m : Mask} {v : Nat} (h : m.getD v false = true) : 1 ≤ m.count := by
+  have hv := Mask.lt_size_of_getD h
+  unfold Mask.count
+  have hmem : true ∈ m.toList.filter id := by
+    rw [List.mem_filter]
+    refine ⟨?_, rfl⟩
+    have h' : m[v] = true := by simpa [Array.getD_eq_getD_getElem?, hv] using h
+    rw [← h']
+    simp
+  exact List.length_pos_of_mem hmem
+
+
+/-! ### one trimming round -/
+
+/-- number of marked shift-successors (definitionally `succIn` of the property file). -/
+def succCount (k : Nat) (s : Mask) (v : Nat) : Nat :=
+  ((obtainLatters k v).filter fun w => s.getD w false).length
+
+/-- every marked vertex has at least `t` marked successors (definitionally `Closed`). -/
+def TrimClosed (k t : Nat) (s : Mask) : Prop := ∀ v, s.getD v false = true → t ≤ succCount k s v
+
+theorem succCount_mono {k : Nat} {a b : Mask} (h : Mask.Le a b) (v : Nat) :
+    succCount k a v ≤ succCount k b v :=
+  filter_length_mono _ _ (fun w hw => h w hw) _
+
+theorem trimStep_size (k t : Nat) (m : Mask) : (trimStep k t m).size = 4 ^ k := by
+  simp [trimStep]
+
+theorem trimStep_getD (k t : Nat) (m : Mask) (v : Nat) :
+    (trimStep k t m).getD v false =
+      (decide (v < 4 ^ k) && (m.getD v false && decide (t ≤ succCount k m v))) := by
+  unfold trimStep succCount
+  by_cases hv : v < 4 ^ k
+  · simp [Array.getD_eq_getD_getElem?, hv]
+  · simp [Array.getD_eq_getD_getElem?, hv]
+
+theorem trimStep_le (k t : Nat) (m : Mask) : Mask.Le (trimStep k t m) m := by
+  intro v h
+  rw [trimStep_getD] at h
+  simp only [Bool.and_eq_true, decide_eq_true_eq] at h
+  exact h.2.1
+
+theorem trimStep_mono {k t : Nat} {a b : Mask} (h : Mask.Le a b) :
+    Mask.Le (trimStep k t a) (trimStep k t b) := by
+  intro v hv
+  rw [trimStep_getD] at hv ⊢
+  simp only [Bool.and_eq_true, decide_eq_true_eq] at hv ⊢
+  exact ⟨hv.1, h v hv.2.1, Nat.le_trans hv.2.2 (succCount_mono h v)⟩
+
+/-- a closed subset of `m` survives a trimming round. -/
+theorem trimStep_closed_le {k t : Nat} {c m : Mask} (hm : m.size = 4 ^ k) (hcm : Mask.Le c m)
+    (hc : TrimClosed k t c) : Mask.Le c (trimStep k t m) := by
+  intro v hv
+  rw [trimStep_getD]
+  have h1 := hcm v hv
+  have h2 := Mask.lt_size_of_getD h1
+  simp only [Bool.and_eq_true, decide_eq_true_eq]
+  exact ⟨by omega, h1, Nat.le_trans (hc v hv) (succCount_mono hcm v)⟩
+
+/-- a fixed point of the round is closed. -/
+theorem closed_of_trimStep_eq {k t : Nat} {m : Mask} (h : trimStep k t m = m) :
+    TrimClosed k t m := by
+  intro v hv
+  rw [← h, trimStep_getD] at hv
+  simp only [Bool.and_eq_true, decide_eq_true_eq] at hv
+  exact hv.2.2
+
+/-! ### the loop -/
+
+/-- the loop returns the greatest closed mask below its input, and that mask is not empty. -/
+theorem trimLoop_ok (k t : Nat) : ∀ (f : Nat) (m s : Mask), m.size = 4 ^ k →
+    trimLoop k t f m = .ok s →
+      s.size = 4 ^ k ∧ Mask.Le s m ∧ TrimClosed k t s ∧
+      (∀ c : Mask, Mask.Le c m → TrimClosed k t c → Mask.Le c s) ∧ 1 ≤ s.count := by
+  intro f
+  induction f with
+  | zero => intro m s _ h; simp [trimLoop] at h
+  | succ f ih =>
+    intro m s hm h
+    simp only [trimLoop] at h
+    split at h
+    · simp at h
+    · rename_i hpos
+      split at h
+      · rename_i heq
+        cases h
+        have hfix : trimStep k t m = m :=
+          Mask.eq_of_le_of_count (by rw [trimStep_size, hm]) (trimStep_le k t m) heq
+        exact ⟨hm, Mask.Le.refl _, closed_of_trimStep_eq hfix, fun c hc _ => hc, by omega⟩
+      · obtain ⟨h1, h2, h3, h4, h5⟩ := ih _ _ (trimStep_size k t m) h
+        exact ⟨h1, h2.trans (trimStep_le k t m), h3,
+          fun c hcm hc => h4 c (trimStep_closed_le hm hcm hc) hc, h5⟩
+
+/-- with more fuel than marked vertices the loop can only fail with `ValueError`, and then no
+closed subset of the input has a vertex. -/
+theorem trimLoop_error (k t : Nat) : ∀ (f : Nat) (m : Mask) (e : PyErr), m.size = 4 ^ k →
+    m.count < f → trimLoop k t f m = .error e →
+      e = .valueError ∧
+      ∀ c : Mask, Mask.Le c m → TrimClosed k t c → ∀ v, ¬ c.getD v false = true := by
+  intro f
+  induction f with
+  | zero => intro m e _ h; omega
+  | succ f ih =>
+    intro m e hm hf h
+    simp only [trimLoop] at h
+    split at h
+    · rename_i hzero
+      cases h
+      refine ⟨rfl, fun c hcm hc v hv => ?_⟩
+      have h1 := trimStep_closed_le hm hcm hc v hv
+      have h2 := Mask.count_pos_of_getD h1
+      omega
+    · split at h
+      · simp at h
+      · rename_i hne
+        have hle := Mask.count_le_of_le (by rw [trimStep_size, hm]) (trimStep_le k t m)
+        obtain ⟨h1, h2⟩ := ih _ e (trimStep_size k t m) (by omega) h
+        exact ⟨h1, fun c hcm hc => h2 c (trimStep_closed_le hm hcm hc) hc⟩
+
+
+/-- `trimLoop_ok`, first half: the result has size `4^k`, is a subset of the input and is closed. -/
+theorem trimLoop_ok_closed {k t f : Nat} {m s : Mask} (hm : m.size = 4 ^ k)
+    (h : trimLoop k t f m = .ok s) : s.size = 4 ^ k ∧ Mask.Le s m ∧ TrimClosed k t s :=
+  have := trimLoop_ok k t f m s hm h
+  ⟨this.1, this.2.1, this.2.2.1⟩
+
+/-- `trimLoop_ok`, second half: every closed subset of the input is inside the result. -/
+theorem trimLoop_ok_max {k t f : Nat} {m s : Mask} (hm : m.size = 4 ^ k)
+    (h : trimLoop k t f m = .ok s) {c : Mask} (hcm : Mask.Le c m) (hc : TrimClosed k t c) :
+    Mask.Le c s :=
+  (trimLoop_ok k t f m s hm h).2.2.2.1 c hcm hc
+
+/-- the result of the loop is not empty. -/
+theorem trimLoop_ok_count_pos {k t f : Nat} {m s : Mask} (hm : m.size = 4 ^ k)
+    (h : trimLoop k t f m = .ok s) : 1 ≤ s.count :=
+  (trimLoop_ok k t f m s hm h).2.2.2.2
+
+/-- `4^k + 1` rounds of fuel always suffice. -/
+theorem trimLoop_ne_outOfFuel {k t : Nat} {m : Mask} (hm : m.size = 4 ^ k) :
+    trimLoop k t (4 ^ k + 1) m ≠ .error .outOfFuel := by
+  intro h
+  have := Mask.count_le_size m
+  have := (trimLoop_error k t _ m _ hm (by omega) h).1
+  cases this
+
+/-! ### reading the induced accessor -/
+
+theorem inducedAccessor_size (k : Nat) (s : Mask) : (inducedAccessor k s).size = 4 ^ k := by
+  simp [inducedAccessor]
+
+theorem obtainLatters_length (k v : Nat) : (obtainLatters k v).length = 4 := by
+  simp [obtainLatters]
+
+theorem obtainLatters_getElem? (k v j : Nat) (hj : j < 4) :
+    (obtainLatters k v)[j]? = some ((v * 4 + j) % 4 ^ k) := by
+  simp [obtainLatters, hj]
+
+theorem mem_obtainLatters {k v w : Nat} :
+    w ∈ obtainLatters k v ↔ ∃ j, j < 4 ∧ w = (v * 4 + j) % 4 ^ k := by
+  simp [obtainLatters, eq_comm]
+
+/-- row `v` of the induced accessor. -/
+theorem inducedAccessor_getD (k : Nat) (s : Mask) (v : Nat) (hv : v < 4 ^ k) :
+    (inducedAccessor k s).getD v #[] =
+      if s.getD v false then
+        ((obtainLatters k v).map fun w => if s.getD w false then Int.ofNat w else -1).toArray
+      else Array.replicate 4 (-1) := by
+  simp [inducedAccessor, Array.getD_eq_getD_getElem?, hv]
+
+theorem Acc.row_natCast (a : Acc) (v : Nat) (hv : v < a.size) : a.row (v : Int) = a.getD v #[] := by
+  unfold Acc.row
+  have h1 : ¬ ((v : Int) < 0) := by omega
+  have h2 : (0 : Int) ≤ v ∧ (v : Int) < (a.size : Int) := by omega
+  simp [h1, h2]
+
+/-- entry `(v, j)` of the induced accessor: the `j`-th shift-successor of `v` when both ends are
+marked, `-1` otherwise. -/
+theorem inducedAccessor_ent (k : Nat) (s : Mask) (v j : Nat) (hv : v < 4 ^ k) (hj : j < 4) :
+    (inducedAccessor k s).ent v j =
+      if s.getD v false = true ∧ s.getD ((v * 4 + j) % 4 ^ k) false = true then
+        (((v * 4 + j) % 4 ^ k : Nat) : Int) else -1 := by
+  unfold Acc.ent
+  rw [Acc.row_natCast _ _ (by rw [inducedAccessor_size]; exact hv), inducedAccessor_getD k s v hv]
+  by_cases h1 : s.getD v false = true
+  · rw [if_pos h1]
+    simp only [Array.getD_eq_getD_getElem?, List.getElem?_toArray, List.getElem?_map,
+      obtainLatters_getElem? k v j hj, Option.map_some, Option.getD_some, h1, true_and]
+    by_cases h2 : s[(v * 4 + j) % 4 ^ k]?.getD false = true
+    · simp [h2]
+    · simp [h2]
+  · rw [if_neg h1]
+    simp [Array.getD_eq_getD_getElem?, hj, h1]
+
+/-- the induced accessor of any mask is an arc subset of the de Bruijn graph. -/
+theorem inducedAccessor_wfdb (k : Nat) (s : Mask) : WFdB k (inducedAccessor k s) := by
+  refine ⟨inducedAccessor_size k s, fun v hv => ⟨?_, fun j hj => ?_⟩⟩
+  · rw [inducedAccessor_getD k s v hv]
+    split <;> simp [obtainLatters_length]
+  · rw [inducedAccessor_ent k s v j hv hj]
+    split <;> simp
+
+/-- a row of the induced accessor has an arc iff the vertex is marked and has a marked successor. -/
+theorem inducedAccessor_row_any (k : Nat) (s : Mask) (v : Nat) (hv : v < 4 ^ k) :
+    (((inducedAccessor k s).getD v #[]).any fun e => e + 1 != 0) =
+      (s.getD v false && decide (1 ≤ succCount k s v)) := by
+  rw [inducedAccessor_getD k s v hv]
+  by_cases h1 : s.getD v false = true
+  · rw [if_pos h1, h1, Bool.true_and]
+    rw [Bool.eq_iff_iff]
+    simp only [List.any_toArray, List.any_map, List.any_eq_true, Function.comp, succCount]
+    constructor
+    · rintro ⟨w, hw, h⟩
+      apply decide_eq_true
+      have : s.getD w false = true := by
+        by_cases h2 : s.getD w false = true
+        · exact h2
+        · simp [h2] at h
+      exact List.length_pos_of_mem
+        ((List.mem_filter (p := fun w => s.getD w false)).2 ⟨hw, this⟩)
+    · intro h
+      obtain ⟨w, hw⟩ := List.exists_mem_of_length_pos (of_decide_eq_true h)
+      rw [List.mem_filter] at hw
+      refine ⟨w, hw.1, ?_⟩
+      rw [if_pos hw.2]
+      simp
+      omega
+  · rw [if_neg h1]
+    have h0 : s.getD v false = false := by simpa using h1
+    rw [h0, Bool.false_and, show Array.replicate 4 (-1 : Int) = #[-1, -1, -1, -1] from rfl]
+    simp
+
+/-- on a closed mask (threshold ≥ 1) the vertices with arcs are exactly the marked ones. -/
+theorem obtainVertices_inducedAccessor {k t : Nat} {s : Mask} (hs : s.size = 4 ^ k) (ht : 1 ≤ t)
+    (hc : TrimClosed k t s) : obtainVertices (inducedAccessor k s) = s.indices := by
+  unfold obtainVertices Mask.indices
+  rw [inducedAccessor_size, hs]
+  apply List.filter_congr
+  intro v hv
+  rw [List.mem_range] at hv
+  rw [inducedAccessor_row_any k s v hv]
+  by_cases h1 : s.getD v false = true
+  · have := hc v h1
+    simp [h1]; omega
+  · simp at h1; simp [h1]
+
+/-! ### `connect_coding_graph` for thresholds other than 1 -/
+
+theorem connectCodingGraph_eq (k : Nat) (m : Mask) (t : Nat) (ht : t ≠ 1) :
+    connectCodingGraph k m t =
+      (trimLoop k t (4 ^ k + 1) m).map fun s => (s.indices, inducedAccessor k s) := by
+  unfold connectCodingGraph
+  cases trimLoop k t (4 ^ k + 1) m with
+  | error e => rfl
+  | ok s => simp [ht, Except.map, bind, Except.bind, pure, Except.pure]
+
+end Dsw.Trim
